@@ -36,12 +36,15 @@ type Party interface {
 	advance()
 	lock()
 	unlock()
+	noteEarlyMessage()
+	hadEarlyMessage() bool
 }
 
 type BaseParty struct {
 	mtx        sync.Mutex
 	rnd        Round
 	FirstRound Round
+	early      bool // a message was stored before Start()
 }
 
 func (p *BaseParty) Running() bool {
@@ -105,6 +108,14 @@ func (p *BaseParty) advance() {
 	p.rnd = p.rnd.NextRound()
 }
 
+func (p *BaseParty) noteEarlyMessage() {
+	p.early = true
+}
+
+func (p *BaseParty) hadEarlyMessage() bool {
+	return p.early
+}
+
 func (p *BaseParty) lock() {
 	p.mtx.Lock()
 }
@@ -138,9 +149,27 @@ func BaseStart(p Party, task string, prepare ...func(Round) *Error) *Error {
 	}
 	common.Logger.Infof("party %s: %s round %d starting", p.round().Params().PartyID(), task, 1)
 	defer func() {
-		common.Logger.Debugf("party %s: %s round %d finished", p.round().Params().PartyID(), task, 1)
+		common.Logger.Debugf("party %s: %s round %d finished", p.PartyID(), task, 1)
 	}()
-	return p.round().Start()
+	if err := p.round().Start(); err != nil {
+		return err
+	}
+	// messages delivered before Start() are already stored: take them into account now, otherwise a
+	// party that was handed all the messages of its first round early would wait for them forever
+	for p.hadEarlyMessage() && p.round() != nil {
+		if _, err := p.round().Update(); err != nil {
+			return err
+		}
+		if !p.round().CanProceed() {
+			break
+		}
+		if p.advance(); p.round() != nil {
+			if err := p.round().Start(); err != nil {
+				return err
+			}
+		}
+	}
+	return nil
 }
 
 // an implementation of Update that is shared across the different types of parties (keygen, signing, dynamic groups)
@@ -183,5 +212,6 @@ func BaseUpdate(p Party, msg ParsedMessage, task string) (ok bool, err *Error) {
 		}
 		return r(true, nil)
 	}
+	p.noteEarlyMessage() // stored before Start(): BaseStart will take it into account
 	return r(true, nil)
 }
